@@ -45,7 +45,7 @@ from ariadne_codegen.main import client
 root = sys.argv[1]
 os.chdir(root)      # relative paths: the `stable` comments name the source files, which must not depend on the scratch directory
 cfg = dict(schema_path="schema.graphql", queries_path="queries.graphql",
-           target_package_name="pkg", target_package_path=".", include_comments="stable",
+           target_package_name="pkg", target_package_path=".", include_comments=(sys.argv[3] if len(sys.argv) > 3 else "stable"),
            scalars={"Money": {"type": "client.scalars.Money", "parse": "client.scalars.parse_money", "serialize": "client.scalars.ser_money"}},
            plugins=json.loads(sys.argv[2]))
 with contextlib.redirect_stdout(io.StringIO()):
@@ -75,7 +75,7 @@ files = [os.path.join(root, "extra_helpers.py")]
 scalars = {"Money": {"type": "client.scalars.Money", "parse": "client.scalars.parse_money", "serialize": "client.scalars.ser_money"}}
 plugins = json.loads(sys.argv[2])
 cfg = dict(schema_path="schema.graphql", queries_path="queries.graphql",
-           target_package_name="pkg", include_comments="stable", scalars=scalars, plugins=plugins, files_to_include=files)
+           target_package_name="pkg", include_comments=(sys.argv[3] if len(sys.argv) > 3 else "stable"), scalars=scalars, plugins=plugins, files_to_include=files)
 config = {"tool": {"ariadne-codegen": cfg}}
 for sub in ("first", "second", "edited"):
     if sub == "edited":
@@ -108,7 +108,7 @@ def replay_generation(seeds=(0, 1, 2, 3, 1000)):
             open(os.path.join(base, "schema.graphql"), "w").write(SCHEMA)
             open(os.path.join(base, "queries.graphql"), "w").write(QUERIES)
             open(os.path.join(base, "extra_helpers.py"), "w").write("HELPER = 1\n")
-            r = subprocess.run([sys.executable, "-c", PROG_TWICE, base, json.dumps(list(plugins))], capture_output=True, text=True, timeout=300)
+            r = subprocess.run([sys.executable, "-c", PROG_TWICE, base, json.dumps(list(plugins)), "none" if plugins else "stable"], capture_output=True, text=True, timeout=300)
             if r.returncode != 0:
                 rep["outcome"][name] = r.stderr[-300:]
                 rep["failed"].append(f"{name}: the second generation in the same interpreter fails")
@@ -123,7 +123,7 @@ def replay_generation(seeds=(0, 1, 2, 3, 1000)):
             os.makedirs(fresh)
             shutil.copy(os.path.join(base, "schema.graphql"), fresh)
             shutil.copy(os.path.join(base, "queries.graphql"), fresh)
-            r2 = subprocess.run([sys.executable, "-c", PROG, fresh, json.dumps(list(plugins))], capture_output=True, text=True, timeout=300)
+            r2 = subprocess.run([sys.executable, "-c", PROG, fresh, json.dumps(list(plugins)), "none" if plugins else "stable"], capture_output=True, text=True, timeout=300)
             if r2.returncode != 0:
                 rep["outcome"][name + ":fresh"] = r2.stderr[-300:]
                 rep["pre_ok"] = False
@@ -151,14 +151,14 @@ def replay_generation_hash_seeds(seeds=(0, 1, 2, 3, 1000), plugins=()):
             open(os.path.join(root, "schema.graphql"), "w").write(SCHEMA)
             open(os.path.join(root, "queries.graphql"), "w").write(QUERIES)
             env = dict(os.environ, PYTHONHASHSEED=str(seed))
-            r = subprocess.run([sys.executable, "-c", PROG, root, json.dumps(list(plugins))], capture_output=True, text=True, env=env, timeout=300)
+            r = subprocess.run([sys.executable, "-c", PROG, root, json.dumps(list(plugins)), "stable" if plugins else "none"], capture_output=True, text=True, env=env, timeout=300)
             if r.returncode != 0:
                 rep["outcome"][f"seed{seed}"] = r.stderr[-300:]
                 rep["pre_ok"] = False
                 return rep
             digests[seed] = _digest(os.path.join(root, "pkg"))
             if seed == seeds[0]:        # regenerate over the existing directory
-                r = subprocess.run([sys.executable, "-c", PROG, root, json.dumps(list(plugins))], capture_output=True, text=True, env=env, timeout=300)
+                r = subprocess.run([sys.executable, "-c", PROG, root, json.dumps(list(plugins)), "stable" if plugins else "none"], capture_output=True, text=True, env=env, timeout=300)
                 if r.returncode != 0:
                     rep["outcome"]["regeneration"] = r.stderr[-300:]
                     rep["failed"].append("regeneration over the existing directory fails")
